@@ -90,8 +90,18 @@ func main() {
 	switch os.Args[1] {
 	case "exec":
 		cmdExec(os.Args[2:])
-	case "yieldify":
-		if err := yieldifyFile(os.Args[2], os.Args[3]); err != nil {
+	case "rewrite":
+		// gosmt rewrite <in> <out> [now] [yield]
+		doNow, doYield := false, false
+		for _, a := range os.Args[4:] {
+			if a == "now" {
+				doNow = true
+			}
+			if a == "yield" {
+				doYield = true
+			}
+		}
+		if err := rewriteFile(os.Args[2], os.Args[3], doNow, doYield); err != nil {
 			fmt.Fprintln(os.Stderr, err)
 			os.Exit(1)
 		}
